@@ -266,11 +266,16 @@ def facts(par, o):
 def evaluate(ctx, group, items):
     """items: list of (par, queries).  Observes, evaluates in Coq, books the results."""
     cases, meta = [], []
+    hangs = 0
     for par, queries in items:
         case = {'par': par, 'queries': queries}
+        if hangs >= 3:      # every hang costs the watchdog time: three are enough to report
+            ctx.notes.append('group %s abandoned after 3 hangs' % group)
+            break
         try:
             o, odd = observe(par, queries)
         except Hang:
+            hangs += 1
             ctx.count(group, key=repr(par), nontrivial=True, n=len(par), hang=True)
             ctx.violate(group, case, 'a structural query did not return within %d s (hang)' % WATCHDOG_S)
             continue
